@@ -105,19 +105,19 @@ macro_rules! conv_set {
         });
     };
 }
-//@ harness name=aes128_arm_from_enc_val prop=C12 tier=quick bits=256 stub=1 est=60 variants=aes:armv8 desc="Aes128::from(Aes128Enc::new(k)) (by value) encrypts and decrypts as FIPS-197 for all keys and blocks (inverse keys derived from the encryption keys by AESIMC), ARMv8 arm"
-//@ harness name=aes128_arm_from_enc_ref prop=C12 tier=quick bits=256 stub=1 est=60 variants=aes:armv8 desc="Aes128::from(&enc) encrypts/decrypts as FIPS-197 and leaves enc working; all keys and blocks, ARMv8 arm"
-//@ harness name=aes128_arm_dec_from_enc prop=C12 tier=quick bits=256 stub=1 est=100 variants=aes:armv8 desc="Aes128Dec::from(&enc) and Aes128Dec::from(enc) decrypt as FIPS-197; all keys and blocks, ARMv8 arm"
+//@ harness name=aes128_arm_from_enc_val prop=C12 tier=quick bits=256 stub=1 variants=aes:armv8 est=50 desc="Aes128::from(Aes128Enc::new(k)) (by value) encrypts and decrypts as FIPS-197 for all keys and blocks (inverse keys derived from the encryption keys by AESIMC), ARMv8 arm"
+//@ harness name=aes128_arm_from_enc_ref prop=C12 tier=quick bits=256 stub=1 variants=aes:armv8 est=60 desc="Aes128::from(&enc) encrypts/decrypts as FIPS-197 and leaves enc working; all keys and blocks, ARMv8 arm"
+//@ harness name=aes128_arm_dec_from_enc prop=C12 tier=quick bits=256 stub=1 variants=aes:armv8 est=85 desc="Aes128Dec::from(&enc) and Aes128Dec::from(enc) decrypt as FIPS-197; all keys and blocks, ARMv8 arm"
 //@ harness name=aes128_arm_clones prop=C12 tier=thorough bits=256 stub=1 est=310 variants=aes:armv8 desc="clone of a converted Aes128, clone of Aes128Enc, clone of Aes128Dec compute FIPS-197 (hand-written Clone over the union arm selected by the token; derived Clone of the armv8 key arrays); all keys and blocks"
 conv_set!(aes128_arm_from_enc_val, aes128_arm_from_enc_ref, aes128_arm_dec_from_enc, aes128_arm_clones, crate::Aes128, crate::Aes128Enc, crate::Aes128Dec, 16);
-//@ harness name=aes192_arm_from_enc_val prop=C12 tier=quick bits=320 stub=1 est=90 variants=aes:armv8 desc="Aes192::from(Aes192Enc) conforms, all keys and blocks, ARMv8 arm"
-//@ harness name=aes192_arm_from_enc_ref prop=C12 tier=quick bits=320 stub=1 est=130 variants=aes:armv8 desc="Aes192::from(&enc) conforms, all keys and blocks, ARMv8 arm"
-//@ harness name=aes192_arm_dec_from_enc prop=C12 tier=quick bits=320 stub=1 est=190 variants=aes:armv8 desc="Aes192Dec::from(enc / &enc) conforms, ARMv8 arm"
+//@ harness name=aes192_arm_from_enc_val prop=C12 tier=quick bits=320 stub=1 variants=aes:armv8 est=65 desc="Aes192::from(Aes192Enc) conforms, all keys and blocks, ARMv8 arm"
+//@ harness name=aes192_arm_from_enc_ref prop=C12 tier=quick bits=320 stub=1 variants=aes:armv8 est=70 desc="Aes192::from(&enc) conforms, all keys and blocks, ARMv8 arm"
+//@ harness name=aes192_arm_dec_from_enc prop=C12 tier=quick bits=320 stub=1 variants=aes:armv8 est=125 desc="Aes192Dec::from(enc / &enc) conforms, ARMv8 arm"
 //@ harness name=aes192_arm_clones prop=C12 tier=thorough bits=320 stub=1 est=460 variants=aes:armv8 desc="clones of Aes192 / Aes192Enc / Aes192Dec conform, ARMv8 arm"
 conv_set!(aes192_arm_from_enc_val, aes192_arm_from_enc_ref, aes192_arm_dec_from_enc, aes192_arm_clones, crate::Aes192, crate::Aes192Enc, crate::Aes192Dec, 24);
-//@ harness name=aes256_arm_from_enc_val prop=C12 tier=quick bits=384 stub=1 est=250 variants=aes:armv8 desc="Aes256::from(Aes256Enc) conforms, all keys and blocks, ARMv8 arm"
+//@ harness name=aes256_arm_from_enc_val prop=C12 tier=quick bits=384 stub=1 variants=aes:armv8 est=190 desc="Aes256::from(Aes256Enc) conforms, all keys and blocks, ARMv8 arm"
 //@ harness name=aes256_arm_from_enc_ref prop=C12 tier=thorough bits=384 stub=1 est=310 variants=aes:armv8 desc="Aes256::from(&enc) conforms, all keys and blocks, ARMv8 arm"
-//@ harness name=aes256_arm_dec_from_enc prop=C12 tier=quick bits=384 stub=1 est=260 variants=aes:armv8 desc="Aes256Dec::from(enc / &enc) conforms, ARMv8 arm"
+//@ harness name=aes256_arm_dec_from_enc prop=C12 tier=quick bits=384 stub=1 variants=aes:armv8 est=160 need=4 desc="Aes256Dec::from(enc / &enc) conforms, ARMv8 arm"
 //@ harness name=aes256_arm_clones prop=C12 tier=thorough bits=384 stub=1 est=670 variants=aes:armv8 desc="clones of Aes256 / Aes256Enc / Aes256Dec conform, ARMv8 arm"
 conv_set!(aes256_arm_from_enc_val, aes256_arm_from_enc_ref, aes256_arm_dec_from_enc, aes256_arm_clones, crate::Aes256, crate::Aes256Enc, crate::Aes256Dec, 32);
 
